@@ -50,7 +50,7 @@ class NewGen:
                 f["new"] = True
             if dk and self.rng.random() < opts.get("def", 0.25):
                 self.defk += 1
-                f["def"] = str(200 + self.defk) if dk == "int" else '"d%d"' % self.defk
+                f["def"] = str(200 + self.defk % 50) if dk == "int" else '"d%d"' % self.defk
             if self.rng.random() < opts.get("tagskip", 0.06):
                 f["tagskip"] = True
             if (f["tagskip"] or name.startswith("_")) and self.rng.random() < 0.95:
